@@ -136,6 +136,8 @@ class C08(Prop):
                 else:
                     ev.append("clear")
             c = self._history(ev, thr, tmo, gate, breaker, cache, "random")
+            if rng.random() < 0.02:     # malformed stream: both sides must answer bad-op and carry on
+                c["lines"].insert(rng.randrange(1, len(c["lines"]) + 1), rng.choice(["run 1 EXECUTE", "bogus", "cfg and 1", "adv", "run"]))
             if rng.random() < 0.03:
                 c["lines"].insert(rng.randrange(1, len(c["lines"]) + 1), "run u1 EXECUTE PERMIT")
             yield c
